@@ -181,7 +181,7 @@ type replayer struct {
 	// dleq shape
 	st []*stmt
 	// per-position requirement verdicts of the last verify step (for the tiny group's recover filter)
-	lastMust []string
+	lastMust    []string
 	unwitnessed bool
 }
 
